@@ -1,10 +1,12 @@
 package v1
 
 import (
+	"crypto/x509/pkix"
 	"encoding/asn1"
 	"math/big"
 
 	"github.com/wokdav/gopki/generator"
+	"github.com/wokdav/gopki/generator/cert"
 	"github.com/wokdav/gopki/generator/config"
 )
 
@@ -227,4 +229,34 @@ func vhNoExtensions() {
 	if len(tbs) >= len(spki) {
 		vSameBytes(tbs[len(tbs)-len(spki):], spki, "a certificate without extensions carries something after its subjectPublicKeyInfo (an empty extensions field?)")
 	}
+}
+
+// vhHexSubjectWellFormed: C02 for subject values written as #hex. Whatever
+// bytes the user writes - a proper DER string, text that merely looks like
+// a tag and an over-long length, a non-minimal length, a TLV followed by a
+// stray byte, a non-canonical BOOLEAN - the generated certificate stays
+// well-formed, canonical DER: its subject decodes as an RDNSequence without
+// rest and re-encodes to the same bytes, and so does the whole TBSCertificate.
+func vhHexSubjectWellFormed() {
+	vals := []string{"#0c0548656c6c6f", "#130548656c6c6f", "#4D7943657274", "#0c810548656c6c6f", "#0c0548656c6c6f00", "#010105", "#3000", "#ff", "#0500", "#30800000"}
+	v := vals[vChoose("value", len(vals))]
+	subject := []string{"C=DE,CN=" + v, "CN=Demo,O=" + v, "CN=" + v}[vChoose("position", 3)]
+	crt, _, err := vGenerate(CertConfig{Subject: subject, SerialNumber: 5})
+	if err != nil {
+		vReach("rejected") // refusing a value is fine; emitting a broken certificate is not
+		return
+	}
+	vReach("generated")
+	sub := vMust(asn1.Marshal(crt.TBSCertificate.Subject))
+	var back pkix.RDNSequence
+	rest, uerr := asn1.Unmarshal(sub, &back)
+	vAssert(uerr == nil && len(rest) == 0, "the subject of the generated certificate is not well-formed DER")
+	if uerr != nil {
+		return
+	}
+	vSameBytes(vMust(asn1.Marshal(back)), sub, "the subject of the generated certificate is not canonical (decoding and re-encoding changes it)")
+	tbs := vMust(asn1.Marshal(crt.TBSCertificate))
+	var tb cert.TbsCertificate
+	rest, uerr = asn1.Unmarshal(tbs, &tb)
+	vAssert(uerr == nil && len(rest) == 0, "the TBSCertificate with this subject is not well-formed DER")
 }
